@@ -91,7 +91,7 @@ pub proof fn lemma_tree_bt<K, N, E>(r: Seq<Edge<K, N, E>>, root: Node<K, N, E>, 
         forall|i: int| 0 <= i < r.len() - 1 ==> (#[trigger] r[i]).1.k() != root.k(),
     ensures bt_tree(r, root.k())
 {
-    assert forall|i: int| 0 <= i < r.len() implies (#[trigger] r[i]).0.k() == root.k() || exists|j: int| 0 <= j < i && r[j].1.k() == r[i].0.k() by {
+    reveal(tree);    assert forall|i: int| 0 <= i < r.len() implies (#[trigger] r[i]).0.k() == root.k() || exists|j: int| 0 <= j < i && r[j].1.k() == r[i].0.k() by {
         if r[i].0 != root {
             let j = choose|j: int| 0 <= j < i && r[j].1 == r[i].0;
             assert(r[j].1.k() == r[i].0.k());
@@ -108,7 +108,7 @@ pub proof fn lemma_bt_is_path<K, N, E>(p: Seq<Edge<K, N, E>>, r: Seq<Edge<K, N, 
         forall|m: int, n: int| 0 <= m < n < p.len() ==> (#[trigger] p[m]).1.k() != (#[trigger] p[n]).1.k(),
         forall|m: int| 1 <= m < p.len() ==> (#[trigger] p[m]).0.k() != root.k(),
 {
-    let idx = choose|idx: Seq<int>| subseq_by(p, r, idx);
+    reveal(tree);    let idx = choose|idx: Seq<int>| subseq_by(p, r, idx);
     assert forall|m: int| 0 <= m < p.len() implies universe::<K, N, E>().contains((#[trigger] p[m]).0) && universe::<K, N, E>().contains(p[m].1) && in_adj(p[m], adj) && acc(p[m]) by {
         let e = r[idx[m]];
         assert(p[m] == e);
